@@ -99,6 +99,10 @@ def parse_generator_expressions(
             cfgs = [x for x in tgt.properties['IMPORTED_CONFIGURATIONS'] if x]
             cfg = cfgs[0]
 
+        # The location of the build configuration comes first, then the one
+        # without configuration, only then that of any other configuration
+        build_cfg = 'DEBUG' if cmake_is_debug(trace.env) else 'RELEASE'
+
         if cmake_is_debug(trace.env):
             if 'DEBUG' in cfgs:
                 cfg = 'DEBUG'
@@ -112,7 +116,7 @@ def parse_generator_expressions(
         # back to the main artifact (TARGET_FILE) everywhere else.
         bases = ['IMPORTED_IMPLIB', 'IMPORTED_LOCATION'] if linker_file else ['IMPORTED_LOCATION']
         for base in bases:
-            for prop in [f'{base}_{cfg}', base]:
+            for prop in [f'{base}_{build_cfg}', base, f'{base}_{cfg}']:
                 vals = [x for x in tgt.properties.get(prop, []) if x]
                 if vals:
                     if len(vals) > 1:
